@@ -539,6 +539,8 @@ class ExprGen:
                 v = max(0, min(INT_MAX, v + rng.choice([-1, 1])))
         form = rng.choice(self.lit_forms) if self.lit_forms else None
         text, typ = spell_number(rng, v, form=form, suffix=None if self.suffixes else "", pp=self.mode == "pp")
+        if self.mode == "pp" and typ == "u":
+            typ = "ul"          # in #if every unsigned operand has type uintmax_t
         return ["lit", text, v, typ]
 
     def char(self):
